@@ -1,5 +1,6 @@
 import Driver.PoolCmd
 import Driver.ValidCmd
+import Driver.HistCmd
 open Drv
 
 partial def poolLoop (h : IO.FS.Stream) (out : IO.FS.Stream) (cur : Option Ipam.Pool) : IO Unit := do
@@ -23,10 +24,22 @@ partial def lineLoop (h : IO.FS.Stream) (out : IO.FS.Stream) (f : String → Str
     out.putStrLn (f l)
     lineLoop h out f
 
+partial def histLoop (h : IO.FS.Stream) (out : IO.FS.Stream) (s : Ipam.Sys) : IO Unit := do
+  let line ← h.getLine
+  if line.isEmpty then return ()
+  let l := line.trimAscii.toString
+  if l.isEmpty || l.startsWith "#" then
+    histLoop h out s
+  else
+    let (s', o) := histStep s l
+    out.putStrLn o
+    histLoop h out s'
+
 def main (args : List String) : IO UInt32 := do
   let stdin ← IO.getStdin
   let stdout ← IO.getStdout
   match args with
   | ["pool"] => poolLoop stdin stdout none; return 0
+  | ["hist"] => histLoop stdin stdout Ipam.Sys.init; return 0
   | ["valid"] => lineLoop stdin stdout validStep; return 0
   | _ => IO.eprintln "usage: driver pool|..."; return 2
